@@ -91,7 +91,13 @@ def prime_factor_counts(arr):
 # ============================================================================
 
 
-@numba.jit(nopython=True, fastmath=True, cache=True)
+# No "nnan"/"ninf" fast-math flags: the data may hold +-inf, and NaN sort keys (inf - inf)
+# are detected below.
+@numba.jit(
+    nopython=True,
+    fastmath={"nsz", "arcp", "contract", "afn", "reassoc"},
+    cache=True,
+)
 def _sfs_bnl_core(data, sorted_idx, offsets, n_total_groups, result_mask):
     d = data.shape[1]
     max_n = numba.int64(0)
@@ -111,6 +117,7 @@ def _sfs_bnl_core(data, sorted_idx, offsets, n_total_groups, result_mask):
     varying = np.empty(d, dtype=numba.int64)
     local = np.empty((max_n, d), dtype=data.dtype)
     window = np.empty((max_n, d), dtype=data.dtype)
+    window_rows = np.empty(max_n, dtype=np.int64)
     sums_buf = np.empty(max_n, dtype=NUMPY_FLOAT_TYPE)
     max_blocks = (max_n >> 4) + 1
     block_mins = np.empty((max_blocks, d), dtype=data.dtype)
@@ -182,7 +189,8 @@ def _sfs_bnl_core(data, sorted_idx, offsets, n_total_groups, result_mask):
         if dv == 2:
             # 2D: sort by col0, group-aware sweep
             order = np.argsort(local[:n, 0], kind="mergesort")
-            best_c1 = numba.float64(1e308)
+            best_c1 = numba.float64(0.0)
+            first_run = True
             i_start = numba.int64(0)
             while i_start < n:
                 c0_val = local[order[i_start], 0]
@@ -193,7 +201,8 @@ def _sfs_bnl_core(data, sorted_idx, offsets, n_total_groups, result_mask):
                     if v < g_min_c1:
                         g_min_c1 = v
                     i_end += 1
-                if g_min_c1 < best_c1:
+                if first_run or g_min_c1 < best_c1:
+                    first_run = False
                     for k in range(i_start, i_end):
                         if local[order[k], 1] == g_min_c1:
                             result_mask[group_idx[order[k]]] = True
@@ -206,6 +215,11 @@ def _sfs_bnl_core(data, sorted_idx, offsets, n_total_groups, result_mask):
             s = 0.0
             for kk in range(dv):
                 s += local[i, kk]
+            if s != s:
+                # +inf and -inf in one row. Such a row can only dominate, or be dominated
+                # by, rows whose sum is also non-finite, so any fixed place in the order
+                # works as long as equal keys are handled (below).
+                s = -np.inf
             sums_buf[i] = s
 
         order = np.argsort(sums_buf[:n], kind="mergesort")
@@ -221,11 +235,22 @@ def _sfs_bnl_core(data, sorted_idx, offsets, n_total_groups, result_mask):
             window[0, kk] = v
             window_min[kk] = v
             block_mins[0, kk] = v
+        window_rows[0] = idx0
         result_mask[group_idx[idx0]] = True
         w_size = numba.int64(1)
 
+        # Sorting by the sum only guarantees that a row comes after the rows that
+        # dominate it when their sums differ. Sums tie for rows holding inf and through
+        # rounding, so a newly admitted row is also compared against the rows already
+        # admitted with the same sum (window[run_start:]).
+        run_start = numba.int64(0)
+        run_key = sums_buf[idx0]
+
         for ii in range(1, n):
             i = order[ii]
+            if sums_buf[i] != run_key:
+                run_key = sums_buf[i]
+                run_start = w_size
 
             quick_safe = False
             for kk in range(dv):
@@ -267,6 +292,20 @@ def _sfs_bnl_core(data, sorted_idx, offsets, n_total_groups, result_mask):
                         break
 
             if not dominated:
+                for w in range(run_start, w_size):
+                    all_leq = True
+                    any_less = False
+                    for kk in range(dv):
+                        wk = window[w, kk]
+                        ck = local[i, kk]
+                        if ck > wk:
+                            all_leq = False
+                            break
+                        if ck < wk:
+                            any_less = True
+                    if all_leq and any_less:
+                        result_mask[group_idx[window_rows[w]]] = False
+                window_rows[w_size] = i
                 for kk in range(dv):
                     v = local[i, kk]
                     window[w_size, kk] = v
@@ -436,8 +475,9 @@ def fast_pareto_mask(df_values, goals, distinct=True):
     # Build eff_data
     all_simple = len(effective_extra) == 0
     all_min = all_simple and all(sign == 1.0 for _, sign in effective_cols)
-    use_f32 = all_min and data.dtype == np.float32
-    eff_dtype = np.float32 if use_f32 else NUMPY_FLOAT_TYPE
+    # Never compare in a lower precision than the data: values that differ must not
+    # become equal.
+    eff_dtype = np.float32 if data.dtype == np.float32 else np.float64
 
     if all_simple and all_min:
         col_indices = np.array([c for c, _ in effective_cols], dtype=np.intp)
@@ -511,7 +551,7 @@ def warmup():
     mask = np.zeros(20, dtype=np.bool_)
     _sfs_bnl_core(d3, idx, off, 2, mask)
 
-    d3_64 = d3.astype(NUMPY_FLOAT_TYPE)
+    d3_64 = d3.astype(np.float64)
     mask2 = np.zeros(20, dtype=np.bool_)
     _sfs_bnl_core(d3_64, idx, off, 2, mask2)
 
